@@ -77,7 +77,7 @@ fn rule_name(r: Rule) -> &'static str {
 
 fn case_str(c: &Case, rule: Rule, aa: bool) -> String {
     let pre = PREAMBLE.with(|p| p.get());
-    format!("w={} h={} rule={} aa={} pre={} ops={}", c.w, c.h, rule_name(rule), if aa { 1 } else { 0 }, pre, ops_str(&c.ops))
+    format!("w={} h={} rule={} aa={} pre={} ctor={} ops={}", c.w, c.h, rule_name(rule), if aa { 1 } else { 0 }, pre, CTOR.with(|c| c.get()), ops_str(&c.ops))
 }
 
 pub const WHITE: SolidSource = SolidSource { r: 0xff, g: 0xff, b: 0xff, a: 0xff };
@@ -89,6 +89,19 @@ thread_local! {
     /// below the surface + pop, 3 = fill of an off-surface path and of an empty one,
     /// 4 = layer pushed under an empty clip and popped)
     static PREAMBLE: std::cell::Cell<u8> = std::cell::Cell::new(0);
+}
+
+thread_local! {
+    /// how the target is made: 0 DrawTarget::new, 1 from_vec (a transparent vector), 2 from_backing
+    static CTOR: std::cell::Cell<u8> = std::cell::Cell::new(0);
+}
+
+fn make_target(w: i32, h: i32) -> DrawTarget {
+    match CTOR.with(|c| c.get()) {
+        1 => DrawTarget::from_vec(w, h, vec![0u32; (w * h).max(0) as usize]),
+        2 => DrawTarget::from_backing(w, h, vec![0u32; (w * h).max(0) as usize]),
+        _ => DrawTarget::new(w, h),
+    }
 }
 
 fn preamble(dt: &mut DrawTarget, k: u8) {
@@ -129,7 +142,7 @@ fn eval_config(c: &Case, rule: Rule, aa: bool, cov: &Cov) -> Result<u64, Violati
     let (w, h) = (c.w, c.h);
     let pre = PREAMBLE.with(|p| p.get());
     let r = guard(|| {
-        let mut dt = DrawTarget::new(w, h);
+        let mut dt = make_target(w, h);
         preamble(&mut dt, pre);
         dt.fill(
             &path,
@@ -279,6 +292,22 @@ fn polygons(run: &Run, name: &str, w: i32, h: i32, pts: &[(i32, i32)], n: usize,
 }
 
 /// all op strings of length 1..=depth over {M,L} x pts + {Z}
+/// triangles over `pts` on a target made by constructor `ctor` (see CTOR)
+fn polygons_ctor(run: &Run, name: &str, w: i32, h: i32, pts: &[(i32, i32)], ctor: u8) {
+    let np = pts.len();
+    run.bound(name, format!("{}^3 triangles x 2 rules x 2 antialias modes", np));
+    run.par(np * np, |s, l| {
+        CTOR.with(|p| p.set(ctor));
+        for k in 0..np {
+            let (a, b, c) = (pts[s / np], pts[s % np], pts[k]);
+            let case = Case { w, h, ops: vec![QOp::M(a.0, a.1), QOp::L(b.0, b.1), QOp::L(c.0, c.1)] };
+            l.states += 1;
+            eval_case(run, 970_000 + s, &case, l, &BOTH_AA, &BOTH_RULES);
+        }
+        CTOR.with(|p| p.set(0));
+    });
+}
+
 /// triangles over `pts`, filled after preamble `pre` (see PREAMBLE)
 fn polygons_pre(run: &Run, name: &str, w: i32, h: i32, pts: &[(i32, i32)], pre: u8) {
     let np = pts.len();
@@ -535,6 +564,15 @@ impl Check for C01 {
             let name = format!("j:triangles 5x5 2x2 after no-op history {}", pre);
             polygons_pre(run, &name, 2, 2, &grid(&xs, &xs), pre);
         }
+        // targets made by from_vec / from_backing, on surfaces that are not square
+        for ctor in [1u8, 2] {
+            for (w, h) in [(3, 2), (2, 3), (7, 3)] {
+                let xs: Vec<i32> = vec![-3, 2, 4 * w - 3, 4 * w + 2];
+                let ys: Vec<i32> = vec![-2, 3, 4 * h - 2, 4 * h + 3];
+                let name = format!("k:triangles on a {}x{} target made by {}", w, h, if ctor == 1 { "from_vec" } else { "from_backing" });
+                polygons_ctor(run, &name, w, h, &grid(&xs, &ys), ctor);
+            }
+        }
         // degenerate surfaces: nothing painted, nothing panics
         for (w, h) in [(0, 0), (0, 3), (3, 0)] {
             let xs = [-4, 0, 5, 13];
@@ -552,6 +590,7 @@ impl Check for C01 {
         };
         let aa = kv_i(&m, "aa")? != 0;
         PREAMBLE.with(|p| p.set(m.get("pre").and_then(|v| v.parse::<u8>().ok()).unwrap_or(0)));
+        CTOR.with(|p| p.set(m.get("ctor").and_then(|v| v.parse::<u8>().ok()).unwrap_or(0)));
         let edges = edges_from_ops(&c.ops);
         let cov = coverage(&edges, c.w as usize, c.h as usize, rule);
         Ok(eval_config(&c, rule, aa, &cov).err())
